@@ -4,6 +4,7 @@ package verifsim
 // controller owns when bytes move from the master's wire to the client.
 
 import (
+	"context"
 	"errors"
 	"io"
 	"net"
@@ -29,17 +30,21 @@ var (
 )
 
 type simConn struct {
-	mu       sync.Mutex
-	master   *simMaster
-	wire     []byte // emitted by the master, not yet delivered to the client
-	inbox    []byte // delivered, not yet read by the client
-	readWake chan struct{}
-	reading  bool // a Read is parked
-	finRx    bool // master closed: reads drain, then EOF
-	rst      bool
-	closed   bool // client closed
-	rdl      time.Time
-	wdl      time.Time
+	freePlan   AttemptPlan // free-running mode: plan, cancel function and cancel mode of the attempt that dialled
+	freeCancel context.CancelFunc
+	freeMode   int
+	freeFired  bool // (conn.mu)
+	mu         sync.Mutex
+	master     *simMaster
+	wire       []byte // emitted by the master, not yet delivered to the client
+	inbox      []byte // delivered, not yet read by the client
+	readWake   chan struct{}
+	reading    bool // a Read is parked
+	finRx      bool // master closed: reads drain, then EOF
+	rst        bool
+	closed     bool // client closed
+	rdl        time.Time
+	wdl        time.Time
 
 	writeYield  bool          // Write parks until released by the controller
 	writeParked chan struct{} // non-nil while a Write is parked
